@@ -1,5 +1,5 @@
 (* C11: what "the overwrite ring keeps the newest chunks" means, as definitions over the abstract queue of
-   RbSpec.v (ow_spec_step: the writer drops oldest chunks until the reservation is admitted).  No proofs.
+   RbSpec.v (ow_spec_step: the writer drops oldest chunks until the reservation is accepted).  No proofs.
 
    A written chunk is recorded with the size that was RESERVED for it (qb_rb_chunk_alloc) and the bytes that
    were committed; qb_rb_chunk_write reserves exactly what it commits, the blackbox reserves more. *)
